@@ -58,7 +58,9 @@ CONTEXTS = ["root", "subdir", "dash-C", "worktree"]
 
 def script(sc, context):
     rng = sc.rng
-    sc.files = ["src/unié 中.txt", "a b.txt", "plain.txt", "src/plain.txt"]   # the same name at the root and in the sub-directory
+    # the same name at the root and in the sub-directory; a name that git always C-quotes (double quote / backslash / TAB) AND that
+    # contains non-ASCII characters (inside such quotes core.quotePath decides whether those are octal-escaped)
+    sc.files = ["src/unié 中.txt", "a b.txt", "plain.txt", "src/plain.txt", rng.choice(['café "draft".txt', "tab\tné.txt"] + (["back\\slash é.txt"] if sc.profile.get("name:backslash", True) else []))]
     for f in sc.files:
         sc.write(f, [sc.fresh("human", hostile=False) for _ in range(rng.randrange(3, 9))])
     sc.w.subdir = "src"
